@@ -438,6 +438,16 @@ func StaticFn(c ssa.CallInstruction) *ssa.Function {
 		if f, ok := v.Fn.(*ssa.Function); ok {
 			return bodyOf(f)
 		}
+	case *ssa.Extract, *ssa.UnOp, *ssa.Phi, *ssa.FreeVar, *ssa.Parameter:
+		// a function value held in a local variable, or handed back by an absorbed helper (clean-up closures)
+		switch r := Resolve(v).(type) {
+		case *ssa.Function:
+			return bodyOf(r)
+		case *ssa.MakeClosure:
+			if f, ok := r.Fn.(*ssa.Function); ok {
+				return bodyOf(f)
+			}
+		}
 	}
 	return nil
 }
